@@ -130,9 +130,8 @@ def shard(rec, tier, index, n_shards):
         orders = gen.tensor_orders(target, tree)
         if orders[target[1]] == 0:
             continue
-        for _ in range(plan["fmt"]):
-            formats = sparse_output_formats(rng, orders, target[1])
-            for _ in range(plan["inp"]):
+        for k_, formats in enumerate(gen.format_plan(rng, orders, plan["fmt"], target=target[1])):
+            for _ in range(plan["inp"] * (4 if k_ == 0 else 1)):  # the all-compressed assignment gets more inputs
                 do(engine.build_case(rng, target, tree, formats, origin="curated"))
     for _ in range(plan["rnd"] // n_shards):
         target, tree = gen.random_assignment(rng, allow_broadcast_target=True)
